@@ -29,7 +29,7 @@ import (
 
 var (
 	c03DirNames  = []string{"a", "b", "ab", ".terraform", "modules", ".git"}
-	c03FileNames = []string{"a.b", "a+b", "x.tf", "aab", "c", "n\nl"}
+	c03FileNames = []string{"a.b", "a+b", "x.tf", "aab", "c", "n\nl", "é.tf"}
 	c03LeafExtra = []string{"a", "b", "ab"}
 )
 
@@ -47,7 +47,7 @@ func c03Universe() []string {
 		dirs, files, leaf := c03DirNames, c03FileNames, c03LeafExtra
 		if c03Small {
 			dirs = []string{"a", "b", ".terraform", "modules", ".git"}
-			files = []string{"a+b", "x.tf", "c", "aab", "n\nl"}
+			files = []string{"a+b", "x.tf", "c", "aab", "n\nl", "é.tf"}
 			leaf = []string{"a", "ab"}
 		}
 		var out []string
@@ -73,7 +73,7 @@ func c03Universe() []string {
 	return c03Uni
 }
 
-var c03SegPats = []string{"a", "b", "ab", "a.b", "a+b", "x.tf", "c", ".terraform", "modules", ".git", "*", "?", "a*", "*b", "[ab]", "*.tf", "**", "a?b", "??"}
+var c03SegPats = []string{"é.tf", "é*", "a", "b", "ab", "a.b", "a+b", "x.tf", "c", ".terraform", "modules", ".git", "*", "?", "a*", "*b", "[ab]", "*.tf", "**", "a?b", "??"}
 
 // c03SingleRules enumerates all single rule lines: patterns of 1..2 segments
 // (and a selection of 3) x {floating, anchored} x {plain, negated} x {file, dir}.
@@ -116,7 +116,7 @@ func c03CoreRules() []string {
 		"*", "/*", "!*", "*/", "!*/", "**", "!**", "a/*", "!a/*", "a/**",
 		"!a/**", "*/b", "**/b", "!**/b", "x.tf", "!x.tf", "*.tf", "!*.tf", "/x.tf", "a/b/x.tf",
 		"!a/b/x.tf", "a.b", "a+b", "!a+b", "?", "a?", "a*", "!a*", "[ab]", "[ab]/",
-		"c", "!c", "/c", "a/c", "!a/c", "*/c", "*/*/c", "!*/*/c", ".terraform/", "!.terraform/",
+		"é.tf", "!é.tf", "c", "!c", "/c", "a/c", "!a/c", "*/c", "*/*/c", "!*/*/c", ".terraform/", "!.terraform/",
 		".terraform/modules/", "!.terraform/modules/a/", "modules/", "!modules/", ".git/", "!.git/", "a/b/", "!a/b/", "b/**/c", "!b/**/c",
 	}
 }
